@@ -375,6 +375,35 @@ def render_item(item, repo=None, vac=False):
             name = [k for k in re.sub(r'<<.*?>>(?!>)', '', arg).replace('=>', ' ').split() if '=' not in k and k != 'unchecked'][0]
             text, n = _apply_call(text, name, pl[0], opts, what)
             item.rule_counts.append(('call ' + name, n))
+        elif word == 'okloop':
+            # `Ok(loop { ... break V; ... })` as the tail expression of a fn
+            # -> `loop { ... return Ok(V); ... }` (Verus has no `break value`)
+            mk = rl.code_mask(text)
+            mm = next(rl.find_code(text, mk, r'\bOk\(\s*loop\s*\{'), None)
+            if mm is None:
+                raise Undecided('rule %s: no `Ok(loop {`' % what)
+            op = mm.start() + 2
+            cl = rl.match_close(text, mk, op)
+            lb = mm.end() - 1
+            lcl = rl.match_close(text, mk, lb)
+            if rl.norm_ws(text[lcl + 1:cl]) != '':
+                raise Undecided('rule %s: loop is not the whole argument of Ok' % what)
+            inner = text[lb + 1:lcl]
+            mi = rl.code_mask(inner)
+            out = []
+            last = 0
+            n = 0
+            for bm in re.finditer(r'\bbreak\s+(?=[^;\s])', inner):
+                if not mi[bm.start()]:
+                    continue
+                semi = rl.first_code_char(inner, mi, ';', bm.end())
+                out.append(inner[last:bm.start()])
+                out.append('return Ok(' + inner[bm.end():semi] + ')')
+                last = semi
+                n += 1
+            out.append(inner[last:])
+            text = text[:mm.start()] + 'loop {' + ''.join(out) + '}' + text[cl + 1:]
+            item.rule_counts.append(('R7b okloop break-value->return', n))
         elif word == 'mut_self':
             mk = rl.code_mask(text)
             b = _body_open(text, mk)
@@ -405,7 +434,13 @@ def render_item(item, repo=None, vac=False):
             mm = re.search(r'\bin\b', hdr)
             text = text[:kw + mm.end()] + ' ' + name + ':' + text[kw + mm.end():]
             item.rule_counts.append(('iter-name', 1))
+        elif word == 'pub':
+            if not re.match(r'pub\b', text):
+                text = 'pub ' + text
+            item.rule_counts.append(('R13 pub', 1))
         elif word == 'pubfields':
+            if not re.match(r'pub\b', text):
+                text = 'pub ' + text
             mk = rl.code_mask(text)
             dm = rl.depth_map(text, mk)
             out = []
